@@ -36,6 +36,12 @@ Lemma zero_fields_cons f fr : zero_fields (f :: fr) = zero_val (f_ty f) :: zero_
 Proof. reflexivity. Qed.
 
 (* ---------------------------------------------------------------- the identifier an open type is dispatched on *)
+Lemma get_ref_int f z : get_ref (S f) TInt (VInt z) = Ok z.
+Proof. reflexivity. Qed.
+Lemma get_ref_struct1 f nm p' z : String.eqb nm "Present" = false ->
+  get_ref (S (S f)) (TStruct [(nm, p', TInt)]) (VStruct [VInt z]) = Ok z.
+Proof. intros H. cbn [get_ref]. unfold f_name. cbn [fst]. rewrite H. reflexivity. Qed.
+
 Lemma get_ref_key t p n v sv k : ref_shape t = true -> abs_f n t p v = Some sv -> key_of sv = Some k -> get_ref REF_FUEL t v = Ok k.
 Proof.
   intros Hs Ha Hk. destruct t as [| | | | | | | | |fs]; try discriminate.
@@ -48,8 +54,8 @@ Proof.
     rewrite abs_f_seq in Ha by (try exact Ech; reflexivity).
     cbn [combine map all_some habs f_ty f_params fst snd] in Ha.
     destruct n as [|n]; [discriminate|]. destruct x; cbn [abs_f] in Ha; try discriminate. injection Ha as <-.
-    cbn [key_of] in Hk. injection Hk as ->. unfold REF_FUEL. cbn [get_ref]. unfold f_name. cbn [fst].
-    destruct (String.eqb nm "Present"); [discriminate|]. reflexivity.
+    cbn [key_of] in Hk. injection Hk as ->. unfold REF_FUEL. change 16%nat with (S (S 14)). apply get_ref_struct1.
+    destruct (String.eqb nm "Present"); [discriminate|reflexivity].
 Qed.
 
 Lemma dec_find_alt_key r : forall cs j0 m a, (1 <= j0)%nat -> AperDec.find_alt cs j0 r = (j0 + m)%nat -> nth_error cs m = Some a ->
@@ -105,7 +111,7 @@ Proof.
     rewrite app_length, bits_of_bytes_length, Nat.add_assoc. exact Hd3.
 Qed.
 
-Lemma pack_bits_at inner : bits_at (pack inner) 0 inner /\ bok (pack inner) /\ (1 <= length (pack inner))%nat.
+Lemma pack_bits_at inner : bits_at (pack inner) 0 inner /\ bok (pack inner) /\ (1 <= length (pack inner) /\ 8 * length (pack inner) <= length inner + 8)%nat.
 Proof.
   assert (H : exists bs, bok bs /\ bits_of_bytes bs = inner ++ repeat false (pad_len (length inner))).
   { (* the octets of the padded bit string *)
@@ -121,5 +127,7 @@ Proof.
   destruct H as (bs & Hb & Hbits). pose proof (pack_bits_repr bs inner Hb Hbits) as Hp.
   unfold pack. rewrite Hp. destruct bs as [|x bs'] eqn:E.
   - destruct inner; [|discriminate]. split; [exists (repeat false 8); reflexivity|]. split; [constructor; [lia|constructor]|cbn; lia].
-  - rewrite <- E in *. split; [exists (repeat false (pad_len (length inner))); cbn [skipn]; exact Hbits|]. split; [exact Hb|rewrite E; cbn; lia].
+  - rewrite <- E in *. split; [exists (repeat false (pad_len (length inner))); cbn [skipn]; exact Hbits|]. split; [exact Hb|].
+    apply (f_equal (@length bool)) in Hbits. rewrite bits_of_bytes_length, app_length, repeat_length in Hbits. pose proof (pad_len_lt (length inner)).
+    rewrite E in *. cbn [length] in *. lia.
 Qed.
